@@ -725,7 +725,7 @@ public:
   template<class T>
   static T sumExp(const std::vector<T>& v1)
   {
-    if (v1.size() == 0)
+    if (v1.size() == 1)
       return std::exp(v1[0]);
 
     T M = max(v1);
